@@ -17,6 +17,7 @@
 import PyGqlModel.Lemmas.DepthCollect
 import PyGqlModel.Lemmas.DepthAcyclic
 import PyGqlModel.Lemmas.DepthTolerant
+import PyGqlModel.Lemmas.DepthBudget
 
 set_option linter.unusedVariables false
 set_option linter.unusedSimpArgs false
@@ -772,5 +773,109 @@ theorem depthK_eq_depth (doc : Doc) (v : Vars) (op : Op) (hb : boundL v op.sels 
   rw [fuel_erase]
   show levels (eraseFrags v doc.frags) v doc.fuel (eraseL v op.sels) - 1 = _
   rw [hfr, eraseL_id v op.sels hb]
+
+/-! ### after C19-Q2.patch: a nesting budget — the rule is total on EVERY document, cyclic ones included (`ruleB`) -/
+
+/-- **no_raise_all** — no hypothesis at all: for every document (cyclic fragments, duplicate names, undefined
+    spreads …), every JSON request variables, every limit and filter, the rule returns a list of errors. -/
+theorem no_raise_all (doc : Doc) (defs : List (List VarDefR)) (raw : RawVars) (limit : Nat) (filter : Option String) :
+    ∃ errs, ruleB limit filter doc defs raw = .ok errs := by
+  unfold ruleB
+  exact ruleLoopB_total _ (fun i op => depthFixedB_total _ _ _ _) limit filter doc.ops 0
+
+/-- … and so the validation pipeline never lets an exception of the depth rule escape -/
+theorem pipelineB_never_raises (doc : Doc) (defs : List (List VarDefR)) (raw : RawVars) (n : Nat)
+    (filter : Option String) (defaultErrors : Nat) (e : Err) :
+    pipelineB n filter doc defs raw defaultErrors ≠ .raised e := by
+  obtain ⟨errs, he⟩ := no_raise_all doc defs raw n filter
+  simp only [pipelineB, he, outcomeOf]
+  split <;> simp
+
+private theorem ruleLoopB_of_some (depthOf : Nat → Op → Except Err (Option Nat)) (D : Nat → Op → Nat)
+    (limit : Nat) (filter : Option String) :
+    ∀ (ops : List Op) (i : Nat), (∀ j op, ops[j]? = some op → depthOf (i + j) op = .ok (some (D (i + j) op))) →
+      ruleLoopB depthOf limit filter i ops = .ok ((expected D limit filter i ops).map fun p => (p.1, some p.2)) := by
+  intro ops
+  induction ops with
+  | nil => intro i _; simp [ruleLoopB, expected]
+  | cons op rest ih =>
+    intro i h
+    have h1 := h 0 op (by simp)
+    simp only [Nat.add_zero] at h1
+    have h2 := ih (i + 1) (fun j o ho => by
+      have := h (j + 1) o (by simpa using ho)
+      rw [show i + (j + 1) = i + 1 + j by omega] at this
+      exact this)
+    simp only [ruleLoopB, expected, h1, h2]
+    cases opSelected filter op <;> simp
+    split <;> simp_all
+
+/-- **flags_iff_final** — on documents with unique, acyclic fragments the budget changes nothing: reported ⇔ selected
+    and deeper than the limit (kept-when-unknown reading), with that depth as the reported number; never
+    "unbounded". -/
+theorem flags_iff_final (doc : Doc) (defs : List (List VarDefR)) (raw : RawVars)
+    (hu : UniqueNames doc.frags) (ha : Acyclic doc.frags) (limit : Nat) (filter : Option String) :
+    ∃ errs, ruleB limit filter doc defs raw = .ok errs ∧
+      ∀ (i : Nat) (op : Op), doc.ops[i]? = some op →
+        ((∃ d, (i, d) ∈ errs) ↔ (opSelected filter op = true ∧ depthRK doc defs raw i op > limit)) ∧
+        (∀ d, (i, d) ∈ errs → d = some (depthRK doc defs raw i op)) := by
+  have hB : ruleB limit filter doc defs raw =
+      .ok ((expected (depthRK doc defs raw) limit filter 0 doc.ops).map fun p => (p.1, some p.2)) := by
+    unfold ruleB
+    apply ruleLoopB_of_some _ (depthRK doc defs raw) limit filter doc.ops 0
+    intro j op hop
+    simp only [Nat.zero_add]
+    have := measuredT_eq_depthK doc hu ha (effectiveVarsR (defs.getD j []) raw) op (List.mem_of_getElem? hop)
+      doc.budget (fuel_le_budget doc)
+    simp only [depthFixedB, this]
+    rfl
+  refine ⟨_, hB, ?_⟩
+  intro i op hi
+  have hmem := mem_expected (depthRK doc defs raw) limit filter doc.ops 0 i
+  constructor
+  · constructor
+    · rintro ⟨d, hd⟩
+      simp only [List.mem_map, Prod.mk.injEq] at hd
+      obtain ⟨⟨j, n⟩, hjn, rfl, rfl⟩ := hd
+      obtain ⟨o, _, h2, h3, h4, _⟩ := (hmem n).mp hjn
+      simp [hi] at h2; subst h2
+      exact ⟨h3, h4⟩
+    · rintro ⟨h3, h4⟩
+      refine ⟨some (depthRK doc defs raw i op), ?_⟩
+      simp only [List.mem_map, Prod.mk.injEq]
+      exact ⟨(i, depthRK doc defs raw i op),
+        (hmem _).mpr ⟨op, by omega, by simpa using hi, h3, h4, rfl⟩, rfl, rfl⟩
+  · intro d hd
+    simp only [List.mem_map, Prod.mk.injEq] at hd
+    obtain ⟨⟨j, n⟩, hjn, rfl, rfl⟩ := hd
+    obtain ⟨o, _, h2, _, _, h5⟩ := (hmem n).mp hjn
+    simp [hi] at h2; subst h2
+    rw [h5]
+
+/-- an operation is reported as "unbounded" only on documents validation rejects (a fragment cycle, or duplicate
+    fragment names) -/
+theorem unbounded_only_if_invalid (doc : Doc) (defs : List (List VarDefR)) (raw : RawVars) (limit : Nat)
+    (filter : Option String) (errs : List (Nat × Option Nat)) (he : ruleB limit filter doc defs raw = .ok errs)
+    (i : Nat) (hi : (i, none) ∈ errs) : ¬ (UniqueNames doc.frags ∧ Acyclic doc.frags) := by
+  rintro ⟨hu, ha⟩
+  obtain ⟨errs', he', h⟩ := flags_iff_final doc defs raw hu ha limit filter
+  rw [he] at he'
+  cases he'
+  -- the index belongs to an operation: read it off the loop result
+  have hB : ruleB limit filter doc defs raw =
+      .ok ((expected (depthRK doc defs raw) limit filter 0 doc.ops).map fun p => (p.1, some p.2)) := by
+    unfold ruleB
+    apply ruleLoopB_of_some _ (depthRK doc defs raw) limit filter doc.ops 0
+    intro j op hop
+    simp only [Nat.zero_add]
+    have := measuredT_eq_depthK doc hu ha (effectiveVarsR (defs.getD j []) raw) op (List.mem_of_getElem? hop)
+      doc.budget (fuel_le_budget doc)
+    simp only [depthFixedB, this]
+    rfl
+  rw [he] at hB
+  cases hB
+  simp only [List.mem_map, Prod.mk.injEq] at hi
+  obtain ⟨_, _, _, h⟩ := hi
+  cases h
 
 end PyGql.Props.C19
